@@ -4,6 +4,7 @@ import (
 	"fmt"
 	"sort"
 	"strings"
+	"sync"
 
 	"tkestack.io/galaxy/pkg/ipam/schedulerplugin/util"
 	"verif/harness/evid"
@@ -12,6 +13,11 @@ import (
 // Key-law monitor: runs the real util.FormatKey / ParseKey / PoolPrefix / PoolAppPrefix over batches of generated pods.
 
 type podID struct{ NS, Name string }
+
+var (
+	obsMu   sync.Mutex
+	obsSeen = map[string]bool{}
+)
 
 type keyRec struct {
 	g  *genPod
@@ -48,10 +54,18 @@ func batchClass(idx int) string {
 	return clsDNS
 }
 
+// outsideQuantifier: names outside DNS-1123 and owner kinds with '_' (a kind must lower-case to a DNS-1035 label) cannot
+// exist in a cluster, so pods needing them are outside the property's quantifier.
+func outsideQuantifier(class string) bool { return class == clsNames || class == clsKind }
+
 // outsideQ records an observation on inputs outside the property's quantifier: counted, sampled, never a violation.
 func outsideQ(run *evid.Run, what string, example interface{}) {
 	run.Count("outsideq_"+what, 1)
-	if run.Counter("outsideq_"+what) == 1 {
+	obsMu.Lock()
+	first := !obsSeen["outsideq_"+what]
+	obsSeen["outsideq_"+what] = true
+	obsMu.Unlock()
+	if first {
 		run.Set("outside_quantifier_example_"+what, example)
 	}
 }
@@ -112,7 +126,7 @@ func runKeyBatch(run *evid.Run, idx, n int) int {
 		a, b := recs[j].g, recs[i].g
 		pc := pairClass(a, b)
 		w := map[string]interface{}{"key": k, "pod1": witnessOf(a), "pod2": witnessOf(b)}
-		if pc == clsNames {
+		if outsideQuantifier(pc) {
 			outsideQ(run, "key_collisions", w)
 			continue
 		}
@@ -165,7 +179,7 @@ func runKeyBatch(run *evid.Run, idx, n int) int {
 		}
 		fc := g.featureClass()
 		w := map[string]interface{}{"pod": witnessOf(g), "key": ko.KeyInDB, "parsed": p, "mismatch": bad}
-		if fc == clsNames {
+		if outsideQuantifier(fc) {
 			outsideQ(run, "roundtrip_failures", w)
 			continue
 		}
@@ -197,7 +211,7 @@ func runKeyBatch(run *evid.Run, idx, n int) int {
 			run.Count("key_prefix_of_key_checked", 1)
 			if !strings.HasPrefix(ko.KeyInDB, pre) {
 				w := map[string]interface{}{"pod": witnessOf(g), "key": ko.KeyInDB, name: pre}
-				if fc == clsNames {
+				if outsideQuantifier(fc) {
 					outsideQ(run, "prefix_not_prefix", w)
 					continue
 				}
@@ -222,7 +236,7 @@ func runKeyBatch(run *evid.Run, idx, n int) int {
 					a, b := recs[old.from].g, g
 					pc := pairClass(a, b)
 					w := map[string]interface{}{"prefix": e.pre, "pod1": witnessOf(a), "pod2": witnessOf(b)}
-					if pc == clsNames {
+					if outsideQuantifier(pc) {
 						outsideQ(run, "prefix_shared", w)
 					} else {
 						violate(run, evid.Violation{Sig: "prefix-shared-by-distinct-apps-" + pc,
@@ -264,7 +278,7 @@ func runKeyBatch(run *evid.Run, idx, n int) int {
 			pc := pairClass(a, b)
 			w := map[string]interface{}{"prefix": pre, "prefix_of": witnessOf(a), "captured_key": o.ko.KeyInDB,
 				"captured_pod": witnessOf(b)}
-			if pc == clsNames {
+			if outsideQuantifier(pc) {
 				outsideQ(run, "prefix_captures", w)
 				continue
 			}
